@@ -10,7 +10,7 @@ import re
 
 from copy import copy
 
-from cocoasm.exceptions import ParseError, TranslationError, OperandTypeError
+from cocoasm.exceptions import ParseError, TranslationError, OperandTypeError, ValueTypeError
 from cocoasm.instruction import INSTRUCTIONS, CodePackage
 from cocoasm.operands import Operand, BadInstructionOperand
 from cocoasm.values import NumericValue
@@ -128,12 +128,17 @@ class Statement(object):
                 original_operand = data.group("operands")
                 if data.group("comment"):
                     original_operand = "{} {}".format(data.group("operands"), data.group("comment").strip())
+                if not original_operand:
+                    raise ParseError("[{}] requires a delimited string".format(self.mnemonic), line)
                 starting_symbol = original_operand[0]
                 ending_location = original_operand.find(starting_symbol, 1)
-                self.operand = Operand.create_from_str(
-                    original_operand[0:ending_location + 1].strip(),
-                    self.instruction
-                )
+                try:
+                    self.operand = Operand.create_from_str(
+                        original_operand[0:ending_location + 1].strip(),
+                        self.instruction
+                    )
+                except (OperandTypeError, ValueTypeError) as error:
+                    raise ParseError(str(error), line)
                 self.original_operand = copy(self.operand)
                 self.comment = original_operand[ending_location + 2:].strip() or ""
                 self.is_empty = False
@@ -143,7 +148,7 @@ class Statement(object):
                     self.original_operand = copy(self.operand)
                     self.comment = data.group("comment").strip() or ""
                     self.is_empty = False
-                except OperandTypeError as error:
+                except (OperandTypeError, ValueTypeError) as error:
                     raise ParseError(str(error), line)
             return
 
